@@ -283,7 +283,10 @@ var mapBinds = map[string]mapBind{
 }
 
 // calls the translated code makes into parts of the library that are modelled elsewhere: they become parameters
-type externBind struct{ param, coq, kind string }
+type externBind struct {
+	param, coq, kind string
+	only             string // "" = every unit; otherwise the receiver model of the unit for which the callee is an extern
+}
 
 var externCalls = map[string]externBind{
 	"ValidateEncodedResponse": {param: "validated", coq: "res (option response)", kind: "*types.Response"},
@@ -410,6 +413,7 @@ type varInfo struct {
 	coq    string
 	typ    string
 	valPtr bool // pointer known to be non-nil, represented by the pointee value
+	ctyp   string // the receiver: its model record (the unit's receiver model, not the default binding of the Go type)
 }
 
 type pre struct {
@@ -454,6 +458,12 @@ type xlat struct {
 	fnParams    map[string][]string // translated package-level functions: Go types of their parameters
 	curBody     *ast.BlockStmt    // body of the function being translated
 	curPtypes   []string          // Go types of its parameters
+	doneMut     map[string]string   // translated functions that assign receiver fields -> result kind (result: receiver * results)
+	doneParams  map[string][]string // translated function -> the extra parameters it takes after its Go parameters
+	lockOK      map[ast.Stmt]bool   // the mutex statements of the function being translated that follow lockProtocol
+	mutArg      map[*ast.Object]bool // pointer variables whose pointee a mutResBind call rewrites
+	fieldStore  map[*ast.Object]bool // variables a field of which is assigned (V.f = ..)
+	body        *ast.BlockStmt      // body of the function being translated
 }
 
 // cret: the translation of `return` with result term [t]
@@ -653,6 +663,9 @@ func tupleOf(vs []*varInfo) string {
 }
 
 func coqOfVar(v *varInfo) (string, bool) {
+	if v.ctyp != "" {
+		return v.ctyp, true
+	}
 	t := v.typ
 	if v.valPtr {
 		t = strings.TrimPrefix(t, "*")
@@ -732,6 +745,7 @@ func (x *xlat) analyse(body *ast.BlockStmt) {
 		case *ast.SelectorExpr:
 			if id, ok := l.X.(*ast.Ident); ok && id.Obj != nil {
 				x.mutable[id.Obj] = true
+				x.fieldStore[id.Obj] = true
 			}
 		}
 	}
@@ -802,6 +816,22 @@ func (x *xlat) analyse(body *ast.BlockStmt) {
 							mark(u.X, false)
 						}
 					}
+				}
+			}
+			if sel, ok := s.Fun.(*ast.SelectorExpr); ok {
+				// R.M(.., X, ..) for a method name with a mutResBind: X's pointee may be rewritten (the receiver type is
+				// checked where the call is translated; marking too much only threads more state)
+				for k, mb := range mutResBinds {
+					if strings.HasSuffix(k, "."+sel.Sel.Name) && mb.mut < len(s.Args) {
+						if id, ok := s.Args[mb.mut].(*ast.Ident); ok && id.Obj != nil {
+							x.mutable[id.Obj] = true
+							x.mutArg[id.Obj] = true
+						}
+					}
+				}
+				// sp.M(..) for a translated method that assigns receiver fields: the receiver is threaded
+				if id, ok := sel.X.(*ast.Ident); ok && id.Obj != nil && x.doneMut[sel.Sel.Name] != "" {
+					x.mutable[id.Obj] = true
 				}
 			}
 		}
@@ -1002,6 +1032,16 @@ func (x *xlat) expr(e ast.Expr) ex {
 	case *ast.SliceExpr:
 		// s[lo:], s[:hi] on []byte (the model checks against len(s): see the note at Decrypt.slice_to)
 		b := x.expr(n.X)
+		if _, isList := coqOf(b.typ); isList && strings.HasPrefix(b.typ, "[]") && b.typ != "[]byte" && !n.Slice3 && n.Low != nil && n.High == nil {
+			// s[lo:] on a slice modelled by a list: 0 <= lo <= len(s), else panic
+			i := x.expr(n.Low)
+			if i.typ != "int" {
+				unsup(n, "slice bound of type %s", i.typ)
+			}
+			name := x.freshName("x")
+			pres := append(append(append([]pre{}, b.pres...), i.pres...), pre{"opt", name, "(lslice_from " + b.term + " " + i.term + ")"})
+			return ex{pres: pres, term: name, typ: b.typ}
+		}
 		if b.typ != "[]byte" || n.Slice3 || (n.Low != nil) == (n.High != nil) {
 			unsup(n, "slice expression form on %s", b.typ)
 		}
@@ -1467,11 +1507,29 @@ func (x *xlat) call(n *ast.CallExpr) ex {
 			}
 			return a
 		case "append":
-			if len(n.Args) != 2 || n.Ellipsis != token.NoPos {
+			if len(n.Args) != 2 {
 				unsup(n, "append form")
 			}
 			a := x.expr(n.Args[0])
 			b := x.expr(n.Args[1])
+			if n.Ellipsis != token.NoPos {
+				// append(a, b...): both slices of the same type, modelled by lists
+				if _, ok := coqOf(a.typ); !ok || !strings.HasPrefix(a.typ, "[]") || a.typ == "[]byte" || b.typ != a.typ {
+					unsup(n, "append(%s, %s...)", a.typ, b.typ)
+				}
+				return ex{pres: append(append([]pre{}, a.pres...), b.pres...), term: "(" + a.term + " ++ " + b.term + ")", typ: a.typ}
+			}
+			if pt, ok := ifaceOfPtr[strings.TrimPrefix(a.typ, "[]")]; ok && strings.HasPrefix(a.typ, "[]") && b.typ == pt {
+				// a pointer stored in an interface-typed element: the pointee represents it (nil is not representable)
+				pres := append(append([]pre{}, a.pres...), b.pres...)
+				t := b.term
+				if !b.valPtr {
+					p := x.freshName("p")
+					pres = append(pres, pre{"opt", p, t})
+					t = p
+				}
+				return ex{pres: pres, term: "(" + a.term + " ++ [" + t + "])", typ: a.typ}
+			}
 			return ex{pres: append(append([]pre{}, a.pres...), b.pres...), term: "(" + a.term + " ++ [" + b.term + "])", typ: a.typ}
 		}
 	}
@@ -1552,7 +1610,7 @@ func (x *xlat) call(n *ast.CallExpr) ex {
 		// method of the receiver that is itself translated
 		if id, ok := sel.X.(*ast.Ident); ok && id.Obj != nil {
 			if vi, ok := x.locals[id.Obj]; ok && vi.typ == "*"+x.pkg+".SAMLServiceProvider" {
-				if eb, ok := externCalls[sel.Sel.Name]; ok {
+				if eb, ok := externCalls[sel.Sel.Name]; ok && (eb.only == "" || eb.only == x.recvCur) {
 					for _, a := range n.Args {
 						x.expr(a) // arguments must be in the subset, their values do not reach the model
 					}
@@ -1573,14 +1631,28 @@ func (x *xlat) call(n *ast.CallExpr) ex {
 					recvArg = "(" + proj + " " + vi.coq + ")"
 				}
 				args := []string{recvArg}
+				if sa := sectionArgs[sel.Sel.Name]; sa != "" {
+					args = []string{sa, recvArg}
+				}
 				if !x.noNow {
 					args = append(args, "now")
 				}
 				pres, args := x.calleeArgs(n, x.funcs[sel.Sel.Name], nil, args)
+				// the callee's extra parameters (values supplied from outside) become parameters of the caller
+				for _, p := range x.doneParams[sel.Sel.Name] {
+					if x.needParams == nil {
+						x.needParams = map[string]bool{}
+					}
+					x.needParams[p] = true
+					args = append(args, paramName(p))
+				}
 				name := x.freshName("r")
 				pres = append(pres, pre{"pm", name, "(G_" + sel.Sel.Name + " " + strings.Join(args, " ") + ")"})
 				if kind == "error" {
 					return ex{pres: pres, term: "(err_of_res " + name + ")", typ: "error"}
+				}
+				if !strings.HasSuffix(kind, ",error") {
+					return ex{pres: pres, term: name, typ: kind} // a single non-error result: the value itself
 				}
 				return ex{pres: pres, term: name, typ: "res:" + kind}
 			}
@@ -1837,20 +1909,11 @@ func terminates(s ast.Stmt) bool {
 	case *ast.IfStmt:
 		return n.Else != nil && terminates(n.Body) && terminates(n.Else)
 	case *ast.ExprStmt:
-		return isPanicCall(n.X)
+		return isPanicCall(n.X) != nil
 	}
 	return false
 }
 
-// isPanicCall: the builtin panic(v)
-func isPanicCall(e ast.Expr) bool {
-	c, ok := e.(*ast.CallExpr)
-	if !ok {
-		return false
-	}
-	id, ok := c.Fun.(*ast.Ident)
-	return ok && id.Name == "panic" && id.Obj == nil && len(c.Args) == 1
-}
 
 func (x *xlat) mutVars(cur []*varInfo, id *ast.Ident, vi *varInfo) []*varInfo {
 	if id.Obj != nil && x.mutable[id.Obj] {
@@ -1938,6 +2001,9 @@ func (x *xlat) block(list []ast.Stmt, cur, out, loop []*varInfo, inLoop bool) st
 		}
 		return fmt.Sprintf("let %s := (%s %s 1)%%Z in %s", vi.coq, vi.coq, op, cont(cur))
 	case *ast.AssignStmt:
+		if _, _, isMutRes := x.mutResBindOf(n); isMutRes && !failsFast(n, rest) {
+			unsup(n, "the call must be followed by `if err != nil { return .. }` (its argument after a failure is not modelled)")
+		}
 		return x.assign(n, cur, cont)
 	case *ast.IfStmt:
 		if init, ok := n.Init.(*ast.AssignStmt); ok && len(init.Rhs) == 1 {
@@ -2032,14 +2098,29 @@ func (x *xlat) block(list []ast.Stmt, cur, out, loop []*varInfo, inLoop bool) st
 		x.loopDepth--
 		loopT := fmt.Sprintf("for_range (fun %s %s => %s) (zrange %s) %s", vi.coq, patOf(cur), body, bound.term, tupleOf(cur))
 		return wrapPres(bound.pres, seq(loopT), "CPanic")
+	case *ast.DeferStmt:
+		if x.lockOK[n] {
+			return cont(cur) // the deferred Unlock of the lock protocol (checkLocks)
+		}
+		unsup(n, "defer")
 	case *ast.ExprStmt:
-		if isPanicCall(n.X) {
-			// panic(v): the argument is evaluated first (it can itself panic; either way the outcome is a panic)
-			x.expr(n.X.(*ast.CallExpr).Args[0])
-			return "CPanic"
+		if x.lockOK[n] {
+			return cont(cur) // a statement of the lock protocol (checkLocks): no sequential effect
+		}
+		if x.mutexOp(n.X) != "" {
+			unsup(n, "mutex statement outside the lock protocol")
+		}
+		if a := isPanicCall(n.X); a != nil {
+			// panic(v): the operand is evaluated, then the function panics
+			return wrapPres(x.expr(a).pres, "CPanic", "CPanic")
 		}
 		if t, ok := x.elemEdit(n, nil, cur, cont); ok {
 			return t
+		}
+		if c, ok := n.X.(*ast.CallExpr); ok {
+			if t, ok := x.mutMethodStmt(n, c, cur, cont); ok {
+				return t
+			}
 		}
 		// c.CryptBlocks(dst, src) on a cipher.BlockMode: dst := decrypted src (panics unless src is whole blocks)
 		if c, ok := n.X.(*ast.CallExpr); ok {
@@ -2362,6 +2443,14 @@ func (x *xlat) assign(n *ast.AssignStmt, cur []*varInfo, cont func([]*varInfo) s
 			return cont(cur)
 		}
 	}
+	// a := sp.M(args) for a translated method that assigns receiver fields
+	if t, ok := x.recvFieldMutCall(n, cur, cont, bindIdent); ok {
+		return t
+	}
+	// v, err := R.M(.., X, ..) where M rewrites what X points to and may panic
+	if t, ok := x.mutResCall(n, cur, cont, bindIdent); ok {
+		return t
+	}
 	// err = f(.., X, ..) where f mutates the struct / element X points to
 	if len(n.Lhs) == 1 && len(n.Rhs) == 1 {
 		if call, ok := n.Rhs[0].(*ast.CallExpr); ok {
@@ -2481,6 +2570,29 @@ func (x *xlat) assign(n *ast.AssignStmt, cur []*varInfo, cont func([]*varInfo) s
 	if len(n.Lhs) == 2 && len(n.Rhs) == 1 {
 		a, ok1 := n.Lhs[0].(*ast.Ident)
 		b, ok2 := n.Lhs[1].(*ast.Ident)
+		if fvi, fst, ffield, ffb, isField := x.fieldOfLocal(n.Lhs[0]); !ok1 && ok2 && isField && ffb.set != "" && n.Tok == token.ASSIGN {
+			// V.f, err = g(args) for a call with results (T, error): the value (nil / zero beside an error) is stored in V.f
+			call, ok := n.Rhs[0].(*ast.CallExpr)
+			if !ok {
+				unsup(n, "tuple assignment")
+			}
+			r := x.expr(call)
+			if !strings.HasPrefix(r.typ, "res:") || !strings.HasSuffix(r.typ, ",error") {
+				unsup(n, "tuple assignment from %s", exprString(call.Fun))
+			}
+			vt := strings.TrimSuffix(strings.TrimPrefix(r.typ, "res:"), ",error")
+			if vt != x.structs[fst][ffield] {
+				unsup(n, "assignment of %s to a field of type %s", vt, x.structs[fst][ffield])
+			}
+			val := "(ptr_of_res " + r.term + ")"
+			if !isPtr(vt) {
+				val = "match " + r.term + " with Ok v => v | Err _ => " + zeroOf(n, vt) + " end"
+			}
+			tmp := x.freshName("t")
+			vb, c2 := bindIdent(b, "error", false, cur)
+			store := x.storeField(n, fvi, fst, ffield, ffb, ex{term: tmp, typ: vt}, c2, cont)
+			return wrapPres(r.pres, fmt.Sprintf("let %s := %s in let %s := (err_of_res %s) in %s", tmp, val, vb.coq, r.term, store), "CPanic")
+		}
 		if !ok1 || !ok2 {
 			unsup(n, "tuple assignment to non-identifiers")
 		}
@@ -2595,6 +2707,9 @@ func (x *xlat) assign(n *ast.AssignStmt, cur []*varInfo, cont func([]*varInfo) s
 		}
 		return wrapPres(v.pres, fmt.Sprintf("let %s := %s in %s", vi.coq, term, cont(c)), "CPanic")
 	case *ast.SelectorExpr:
+		if ovi, ost, ofield, ofb, isField := x.fieldOfLocal(l.X); isField {
+			return x.storeNested(n, l, ovi, ost, ofield, ofb, v, cur, cont)
+		}
 		id, ok := l.X.(*ast.Ident)
 		if !ok || id.Obj == nil || x.locals[id.Obj] == nil {
 			unsup(n, "assignment through %s", exprString(l.X))
@@ -3404,6 +3519,10 @@ func (x *xlat) function(out *bytes.Buffer, name string) {
 	x.locals = map[*ast.Object]*varInfo{}
 	x.mutable = map[*ast.Object]bool{}
 	x.reassign = map[*ast.Object]bool{}
+	x.mutArg = map[*ast.Object]bool{}
+	x.fieldStore = map[*ast.Object]bool{}
+	x.body = fd.Body
+	x.lockOK = nil
 	x.used = map[string]bool{}
 	x.fresh = 0
 	x.loopDepth = 0
@@ -3453,6 +3572,10 @@ func (x *xlat) function(out *bytes.Buffer, name string) {
 					recvMutated = true
 				case gt == "string" || gt == "int" || gt == "bool" || wraps64(gt):
 					isAssigned = true
+				case x.mutArg[id.Obj] && !x.reassign[id.Obj] && !x.fieldStore[id.Obj] && strings.HasPrefix(gt, "*") && typeBind(gt[1:]) != "" && !nilableParams[gt]:
+					// the pointee of a (non-nil) pointer parameter is rewritten by a bound call: threaded like a local; the
+					// rewrite of the CALLER's object is not part of the translated function's result
+					isAssigned = true
 				default:
 					unsup(t, "parameter %s is assigned", id.Name)
 				}
@@ -3498,6 +3621,9 @@ func (x *xlat) function(out *bytes.Buffer, name string) {
 			vi := x.declare(id, gt, valPtr)
 			if isAssigned {
 				assigned = append(assigned, vi)
+			}
+			if len(params) == 0 && recvModel[name] != "" {
+				vi.ctyp = ct
 			}
 			params = append(params, fmt.Sprintf("(%s : %s)", vi.coq, ct))
 			if recvMutated {
@@ -3590,6 +3716,7 @@ func (x *xlat) function(out *bytes.Buffer, name string) {
 		}
 		cur0 = append(cur0, assigned...)
 		x.curPtypes = ptypes
+		x.checkLocks(fd.Body)
 		body := x.block(fd.Body.List, cur0, nil, nil, false)
 		if x.elMut != nil {
 			body = "let v_edits := edits_empty in " + body
@@ -3603,6 +3730,10 @@ func (x *xlat) function(out *bytes.Buffer, name string) {
 		}
 		sort.Strings(nps)
 		params = append(params, nps...)
+		if x.doneParams == nil {
+			x.doneParams = map[string][]string{}
+		}
+		x.doneParams[name] = nps
 		var exts []string
 		for e := range x.externs {
 			exts = append(exts, e)
@@ -3626,6 +3757,12 @@ func (x *xlat) function(out *bytes.Buffer, name string) {
 		}
 	}
 	x.world, x.retWorld, x.curBody = nil, nil, nil
+	if kind != "" && x.recvMut != nil && !strings.HasPrefix(text, "(* UNSUPPORTED") {
+		if x.doneMut == nil {
+			x.doneMut = map[string]string{}
+		}
+		x.doneMut[name] = kind // callable only in the statement forms of recvMutCall
+	}
 }
 
 func emitFuncs(root, types *pkgFiles, env, tenv constEnv) []byte {
